@@ -32,6 +32,10 @@ def switch_seqs(locales, cur, depth):
 
 
 def key_of(r, ev, row):
+    if ev.get("ev") == "Match":
+        return "match;set=%s;table=%s;base=%r;path=%s;%s" % (row["set"], row["table"], row["base"], ev["path"], sorted(r["tags"])[0])
+    if ev.get("ev") == "Routes":
+        return "routes;set=%s;table=%s" % (row["set"], row["table"])
     if ev.get("op") == "read":
         return "read;set=%s;base=%r;path=%s" % (row["set"], ev["base_text"], ev["path"])
     return "switch;set=%s;base=%r;%s->%s;in=%s;%s" % (row["set"], ev["base_text"], ev["from"], ev["to"], ev["in_path"], sorted(r["tags"])[0])
@@ -53,6 +57,17 @@ def check(run):
         rows.append({"case": i + 1, "mode": "router", "set": a["set"], "names": names, "table": a["table"], "loc_names": LOC_NAMES,
                      "base_texts": base_texts(a["base"]), "start_path": start, "cur": a["cur"],
                      "switch_seqs": switch_seqs(sorted(names), a["cur"], depth)})
+    # the real I18nRoute: one case per (locale set, table, base), URLs enumerated by MC_Routes
+    rcases, _ = loadfam.gen_cases(run, "MC_Routes", "MC_Routes_%s.cfg" % run.tier, workers=1, timeout=3600)
+    if len(rcases) != 12:
+        raise vp.ToolError("MC_Routes produced %d cases" % len(rcases))
+    n_switch = len(cases)
+    for j, c in enumerate(rcases):
+        a = c["abs"]
+        rows.append({"case": n_switch + j + 1, "mode": "routes", "set": a["set"], "table": a["tname"], "base": ("/" + "/".join(a["base"])) if a["base"] else "",
+                     "paths": ["/" + "/".join(p) for p in c["paths"]]})
+    cases = cases + rcases
+    run.notes["route_family_urls"] = sum(len(c["paths"]) for c in rcases)
     wd = os.path.join(run.workdir, "router")
     shutil.rmtree(wd, ignore_errors=True)
     os.makedirs(wd)
@@ -75,11 +90,12 @@ def check(run):
             ev = events[r["l"] - 1]
             run.violation(key_of(r, ev, rows[r["case"] - 1]), "event %d tags %s" % (r["l"], sorted(r["tags"])),
                           {"tags": sorted(r["tags"]), "event": ev, "case": cases[r["case"] - 1]["abs"]})
-    run.samples = [cases[len(cases) // 2]["abs"]]
+    run.samples = [cases[n_switch // 2]["abs"], {k: v for k, v in rcases[0]["abs"].items() if k != "table"}]
     run.exhaustive = True
     run.assumptions = ["locale sets {en,fr}, {en,en-US,fr}, {fr,fra,en} (names that are prefixes of each other and of ordinary words), base paths none / app in every spelling the documentation allows, "
                        "3 route tables (static, param, optional, splat, localized segments), paths of <= 2 words below the prefix, switch sequences of the tier's depth fed back into the code",
                        "the private path functions are reached through the guarded `verif_hooks` feature; the router's effects / history handling need a browser and are not covered",
+                       "route families: a real <I18nRoute> with tables T1 / T2 is built natively per locale set; RouteDefs::match_route on every URL of the bounded universe (first segment: each locale name, words starting with a locale name, none) must agree with MatchUrl (locale, route parameters) and generate_routes with GenRoutes; URLs that do not start with the base by whole segments are only required not to be claimed",
                        "paths are canonical (no empty segments); the first segment below the prefix is never itself a locale name"]
     return run.finish("every (locale set, base, route table, path, current locale) of the bounded universe, read + every maximal switch sequence; "
                       "non-trivial: every case", {"distinct_nontrivial": len(cases)})
